@@ -438,22 +438,37 @@ class RefTransmitter:
 
 
 class UartRxMonitor:
-    """Independent receiver reference at pin level for *well-formed* stimuli: the generator tells the monitor which
-    frames it put on the line (byte, first cycle, last cycle); every such frame must produce exactly one
-    source.valid with the right byte between the middle of its stop bit and a few cycles after its end, and nothing
-    is produced while the line idles.  Only armed for generators that announce frames (`feed`)."""
+    """Independent receiver check at pin level.
 
-    def __init__(self, latency):
+    Announced mode (mode-B generators call `announce(byte, first cycle, last cycle)` for every well-formed frame they put
+    on the line, at the transmitter's own rate and phase): every such frame must produce exactly one source.valid with
+    the right byte between its start and a few cycles after its end, and nothing is produced while the line idles.
+
+    Unannounced mode (arbitrary pad sequences: exploration traces, replays): the monitor decodes the pad history itself:
+      - a byte needs a start edge: some falling edge of the pad 9.5 bit periods (+0..8 cycles of latency) earlier;
+      - a *clean* frame - line high for a full frame time before, then exactly the pad sequence of an ideal transmitter
+        at the receiver's own tuning word (bit b in cycles floor-aligned to b*2^32/tw), at least 4 cycles per bit -
+        must be received: one source.valid with that byte 9.5 bit periods (+0..8 cycles) after the start edge."""
+
+    def __init__(self, latency, tw=None):
         self.pending = []        # (byte, earliest cycle, latest cycle)
         self.t = 0
         self.latency = latency
-        self.clean = True        # stimulus so far consists of well-formed frames separated by idle line only
+        self.clean = True        # announced stimulus so far consists of well-formed frames separated by idle line only
+        self.announced = False
+        self.tw = tw
+        self.hist = []           # pad history
+        self.valids = {}         # cycle -> data
+        if tw:
+            self.R = -(-10 * M32 // tw)                       # frame length in cycles
+            self.c10 = -(-19 * (1 << 31) // tw)               # nominal cycle of the stop-bit sample
+            self.shape = [r * tw // M32 for r in range(self.R)]
 
     def announce(self, byte, t_first, t_last):
+        self.announced = True
         self.pending.append((byte, t_first, t_last))
 
-    def observe(self, letter, outs):
-        valid, data = outs
+    def _observe_announced(self, valid, data):
         msg = None
         if valid and self.clean:
             if not self.pending:
@@ -467,6 +482,45 @@ class UartRxMonitor:
         if msg is None and self.clean and self.pending and self.t > self.pending[0][2] + self.latency:
             msg = "frame with byte 0x%02x ended in cycle %d and nothing was received by cycle %d" % (
                 self.pending[0][0], self.pending[0][2], self.t)
+        return msg
+
+    def _observe_decoding(self, valid, data):
+        h, t = self.hist, self.t
+        msg = None
+        if valid:
+            self.valids[t] = data
+            lo, hi = t - self.c10 - 8, t - self.c10
+            if not any(0 < ts < len(h) and h[ts - 1] == 1 and h[ts] == 0 for ts in range(max(lo, 1), hi + 1)):
+                msg = "byte 0x%02x produced in cycle %d without a start edge 9.5 bit periods earlier" % (data, t)
+        if msg is None and 4 * self.tw <= M32:
+            ts = t - self.R - 8                               # a frame that started here is complete by now
+            if ts >= self.R + 4 and h[ts] == 0 and all(v == 1 for v in h[ts - self.R - 4:ts]):
+                fr = h[ts:ts + self.R]
+                bits = [None] * 10
+                ok = True
+                for r, b in enumerate(self.shape):
+                    if bits[b] is None:
+                        bits[b] = fr[r]
+                    elif bits[b] != fr[r]:
+                        ok = False
+                        break
+                if ok and bits[0] == 0 and bits[9] == 1:
+                    byte = sum(bits[1 + k] << k for k in range(8))
+                    got = [(tt, d) for tt, d in self.valids.items() if ts + self.c10 <= tt <= ts + self.c10 + 8]
+                    if len(got) != 1 or got[0][1] != byte:
+                        msg = "clean frame with byte 0x%02x started in cycle %d; received %s" % (
+                            byte, ts, ["0x%02x@%d" % (d, tt) for tt, d in got] or "nothing")
+            for tt in [k for k in self.valids if k < t - 3 * self.R - 32]:
+                del self.valids[tt]
+        return msg
+
+    def observe(self, letter, outs):
+        valid, data = outs
+        self.hist.append(letter[0])
+        if self.announced or self.tw is None:
+            msg = self._observe_announced(valid, data)
+        else:
+            msg = self._observe_decoding(valid, data)
         self.t += 1
         return msg
 
@@ -491,7 +545,7 @@ class UartRxInst(PInst):
         self._mon = None
 
     def monitor(self):
-        self._mon = UartRxMonitor(latency=6)
+        self._mon = UartRxMonitor(latency=6, tw=self.tw)
         self._line = []
         self._t = 0
         return self._mon
@@ -501,7 +555,7 @@ class UartRxInst(PInst):
             self._line = [1] * 4
             self._t = 0
             if self._mon is None:
-                self._mon = UartRxMonitor(latency=6)
+                self._mon = UartRxMonitor(latency=6, tw=self.tw)
         if not self._line:
             if self.noise and rng.random() < 0.3:
                 n = rng.randint(1, 40)
@@ -682,17 +736,19 @@ class SpiMasterInst(PInst):
 # SPI slave
 
 class SpiSlaveMonitor:
-    """Reference slave at pin level for well-formed mode-0 transfers (the generator's master keeps every level for at
-    least 3 sys cycles): after cs_n is released the core reports length = number of rising clock edges inside the
-    frame and the received word = MOSI at those edges (MSB first); irq pulses once per frame; MISO carries the word
-    given at start, MSB first, changing only after falling edges."""
+    """Reference slave at pin level for well-formed mode-0 frames.  A frame is *well-formed* (checked on the pad
+    history, otherwise the frame is skipped): cs_n was high for at least 4 cycles before it, the clock is low when
+    cs_n falls and for 3 cycles before cs_n rises, every clock level inside lasts at least 3 cycles, MOSI does not change
+    within one cycle of a rising clock edge.  Then, after cs_n is released, the core pulses irq once within 6 cycles and
+    reports length = number of rising clock edges inside the frame and (in the low min(length, width) bits) the
+    received word = MOSI at those edges, MSB first."""
 
     def __init__(self, dw):
         self.dw = dw
         self.hist = []           # pad history (clk, cs_n, mosi)
         self.frame = None
-        self.irqs = 0
         self.expect = None
+        self.high_run = 0        # consecutive cycles with cs_n high before now
 
     def observe(self, letter, outs):
         clk, cs_n, mosi, tx, lb = letter
@@ -700,15 +756,35 @@ class SpiSlaveMonitor:
         msg = None
         h = self.hist
         h.append((clk, cs_n, mosi))
-        if len(h) >= 2:
+        t = len(h) - 1
+        fr = self.frame
+        if t >= 1:
             pc, pn, pm = h[-2]
             if pn and not cs_n:
-                self.frame = {"bits": [], "clean": True}
-            if self.frame is not None and not cs_n and not pn and clk and not pc:
-                self.frame["bits"].append(mosi)
-            if self.frame is not None and cs_n and not pn:
-                self.expect = (len(h) + 6, list(self.frame["bits"]))
+                self.frame = fr = {"bits": [], "clean": self.high_run >= 4 and not clk and not pc, "lvl": 1, "t0": t}
+            elif fr is not None and not cs_n:
+                if clk != pc:
+                    if fr["lvl"] < 3 and t - fr["t0"] > fr["lvl"]:
+                        fr["clean"] = False
+                    if fr["lvl"] < 3 and t - fr["t0"] <= fr["lvl"] and fr["lvl"] < 3:
+                        fr["clean"] = False
+                    fr["lvl"] = 1
+                    if clk:
+                        fr["bits"].append(mosi)
+                        if pm != mosi:
+                            fr["clean"] = False
+                        fr["edge_t"] = t
+                else:
+                    fr["lvl"] += 1
+                if fr.get("edge_t") == t - 1 and pm != mosi:
+                    fr["clean"] = False
+            elif fr is not None and cs_n and not pn:
+                if clk or pc or fr["lvl"] < 3:
+                    fr["clean"] = False
+                if fr["clean"]:
+                    self.expect = (t + 6, list(fr["bits"]))
                 self.frame = None
+        self.high_run = self.high_run + 1 if cs_n else 0
         if irq and self.expect is not None:
             deadline, bits = self.expect
             self.expect = None
@@ -721,9 +797,11 @@ class SpiSlaveMonitor:
                 msg = "length=%d, the frame had %d rising clock edges" % (length, len(bits))
             elif (rx & mask) != word:
                 msg = "received 0x%x (low %d bits), MOSI carried 0x%x" % (rx & mask, nb, word)
-        elif self.expect is not None and len(h) > self.expect[0]:
+        elif self.expect is not None and t > self.expect[0]:
             msg = "no irq within 6 cycles after cs_n was released"
             self.expect = None
+        elif self.expect is not None and not cs_n:
+            self.expect = None                      # next frame began before the irq window closed: not well-formed
         return msg
 
 
